@@ -63,3 +63,24 @@ Definition failing (l : list bool) : list nat := failing_from 0 l.
 
 (* byte-code string literal helper used by generated files *)
 Definition bs (l : list nat) : string := fold_right (fun n s => String (ascii_of_nat n) s) EmptyString l.
+
+(* ---- Python exceptions as values ---- *)
+Inductive exn := StructError | ValueError | TypeError | UnicodeDecodeError | KeyError | IndexError
+               | KexDHException | OSError | RuntimeError | OverflowError.
+Inductive res (A : Type) := Ok (a : A) | Raise (e : exn).
+Arguments Ok {A} a. Arguments Raise {A} e.
+Definition bind {A B} (r : res A) (f : A -> res B) : res B :=
+  match r with Ok a => f a | Raise e => Raise e end.
+Notation "'do' x <- r ; k" := (bind r (fun x => k)) (at level 200, x pattern, r at level 100, k at level 200).
+Definition exn_eqb (a b : exn) : bool :=
+  match a, b with
+  | StructError, StructError | ValueError, ValueError | TypeError, TypeError | UnicodeDecodeError, UnicodeDecodeError
+  | KeyError, KeyError | IndexError, IndexError | KexDHException, KexDHException | OSError, OSError
+  | RuntimeError, RuntimeError | OverflowError, OverflowError => true
+  | _, _ => false
+  end.
+Definition res_eqb {A} (eqb : A -> A -> bool) (a b : res A) : bool :=
+  match a, b with Ok x, Ok y => eqb x y | Raise e, Raise f => exn_eqb e f | _, _ => false end.
+Definition pair_eqb {A B} (ea : A -> A -> bool) (eb : B -> B -> bool) (x y : A * B) : bool :=
+  ea (fst x) (fst y) && eb (snd x) (snd y).
+Definition zs_eqb := list_eqb Z.eqb.
